@@ -8,6 +8,7 @@ from common import Driver, Report, ser_result, ser_diagram, wf_failure, lean_obl
 from core import Family, Gen, tok_expr, spec_diagram, enumerate_diagrams, small_signature
 from semantics import IntFunctor, wire_labels
 from props.c05 import simulate
+from props import c06_scale as sc
 
 PROP = "C06"
 CAP = 400          # steps read from a normalize() generator before giving up
@@ -146,6 +147,232 @@ def legal_single_exchange(prev, step, left):
     return False
 
 
+# ---------------------------------------------------------------------------------- SCALING stream
+
+def _describe(spec, limit=6000):
+    """Compact, replayable description of a (possibly large) `mk` spec."""
+    _, dom, cod, boxes, offsets = spec
+    txt = "dom=%d cod=%d boxes=[%s] offsets=%s" % (
+        len(dom), len(cod),
+        " ".join("%s:%d>%d" % (b["name"], len(b["dom"]), len(b["cod"])) for b in boxes),
+        list(offsets))
+    return txt if len(txt) <= limit else txt[:limit] + "...(%d boxes)" % len(boxes)
+
+
+def scaling_stream(rep, rng, drv, tier, seed):
+    """Structured worst-case families at growing sizes (module c06_scale): for each member, both
+    preferences, normal_form must return (a connected diagram: no NotImplementedError, no other
+    exception), the result must be well typed, have the input's boundary, boxes and wiring, have
+    no redex, be a fixed point of normal_form, and be the family's closed-form normal form; other
+    members of the class (random legal exchanges) must reach the same value.  Mid-size members
+    are also normalised by the Lean model (value and full trace).  The largest members need more
+    passes than the interpreter's default recursion limit; the LOW-STACK part repeats the call in
+    a subprocess with the recursion limit lowered far below the number of passes."""
+    import time
+    quick = tier == "quick"
+    walls, t0 = {}, time.time()
+    fams = {"monoidal": Family("monoidal"), "rigid": Family("rigid")}
+    passes_seen = []
+
+    def case_of(mem, left, spec=None, **kw):
+        spec = spec or mem["spec"]
+        c = dict(stream="scaling", family=mem["family"], size=mem["size"], unique_names=mem["unique"],
+                 left=left, boxes=len(spec[3]), diagram=_describe(spec))
+        c.update(kw)
+        return c
+
+    def judge(case, d, nf, mem, left, want):
+        """The property's predicate on a returned normal form."""
+        why = wf_failure(nf)
+        if why:
+            rep.fail("scaling:illtyped_normal_form", case, why)
+            return
+        if nf.dom != d.dom or nf.cod != d.cod:
+            rep.fail("scaling:type_changed", case, "normal form has another boundary")
+        if sorted(b.name for b in nf.boxes) != sorted(b.name for b in d.boxes):
+            rep.fail("scaling:boxes_changed", case, "normal form has other boxes")
+        elif mem["unique"] and sc.real_wiring(nf) != sc.spec_wiring(mem["spec"]):
+            rep.fail("scaling:not_reachable_by_interchanges", case,
+                     "some box of the normal form is plugged into other wires than in the input")
+        if not sc.real_terminal(nf, left):
+            rep.fail("normal_form_not_terminal", case, "the returned normal form still has a redex")
+        if ser_diagram(nf) != want:
+            rep.fail("scaling:not_the_closed_form_normal_form", case,
+                     "normal form differs from the closed form of the family: offsets %r"
+                     % (list(nf.offsets)[:60],))
+
+    def normal_form_of(case, cls, d, left):
+        try:
+            return cls.normal_form(d, left=left)
+        except NotImplementedError:
+            rep.fail("connected_not_normalised", case, "NotImplementedError on a connected diagram")
+        except Exception as exc:
+            rep.fail("normal_form_raises:" + err_class(exc), case,
+                     "normal_form raised %s" % repr(exc)[:160])
+        return None
+
+    def in_process(mem, left, famname, walks, lean, walk_steps=80):
+        fam = fams[famname]
+        cls = fam.m.Diagram
+        spec = mem["spec"]
+        d = fam.run(spec)
+        want = ser_diagram(fam.run(mem["nf"][left]))
+        p, st = sc.spec_passes(spec, left)
+        passes_seen.append(p)
+        case = case_of(mem, left, diagram_family=famname, passes=p, exchanges=st)
+        rep.count("scaling:%s" % mem["family"])
+        rep.count("scaling_passes:%s" % ("1" if p == 1 else "2-99" if p < 100 else "100-999"
+                                           if p < 1000 else "1000+"))
+        rep.case("scaling %s %d %s %s %s" % (mem["family"], mem["size"], mem["unique"], left, famname),
+                 p > 1)
+        nf = normal_form_of(case, cls, d, left)
+        if nf is None:
+            return
+        judge(case, d, nf, mem, left, want)
+        # fixed point, as a second call and as an empty trace
+        try:
+            if cls.normal_form(nf, left=left) != nf:
+                rep.fail("not_idempotent", case, "normal_form(normal_form(d)) != normal_form(d)")
+            if list(itertools.islice(cls.normalize(nf, left=left), 1)):
+                rep.fail("normal_form_not_terminal", case, "normalize yields on a normal form")
+        except Exception as exc:
+            rep.fail("normal_form_raises:" + err_class(exc), case,
+                     "normalising the normal form again raised %s" % repr(exc)[:160])
+        # canonicity: other members of the class reach the same value
+        for _ in range(walks):
+            wspec = sc.spec_walk(random.Random(rng.getrandbits(32)), spec, walk_steps)
+            wcase = case_of(mem, left, spec=wspec, diagram_family=famname, member="random walk")
+            wnf = normal_form_of(wcase, cls, fam.run(wspec), left)
+            rep.count("scaling:class_members")
+            if wnf is not None and ser_diagram(wnf) != want:
+                rep.fail("not_canonical:scaling", wcase,
+                         "a member of the class has another normal form than the closed form")
+        # the Lean model on the same input: value, and the whole trace
+        if lean and famname == "monoidal":
+            real = "ok " + ser_diagram(nf)
+            model = drv.ask("eval " + tok_expr(("normal_form", spec, left)))
+            rep.count("scaling:model_normal_form")
+            if real != model:
+                rep.disagree("normal_form-scaling", case, real[:300], model[:300])
+            if st <= (1200 if quick else 3000):
+                try:
+                    steps = list(itertools.islice(cls.normalize(d, left=left), st + 10))
+                except Exception as exc:
+                    rep.fail("normalize_raises:" + err_class(exc), case, repr(exc)[:160])
+                    return
+                realt = "ok 1 " + " ".join([str(len(steps))] + [ser_diagram(x) for x in steps])
+                mine = drv.ask("ntrace %d %d %s" % (1 if left else 0, p + 5, tok_expr(spec)))
+                rep.count("scaling:model_trace")
+                if mine != realt:
+                    rep.disagree("ntrace-scaling", case, realt[:300], mine[:300])
+
+    def rand_branches(lo, hi, shape=None):
+        r = random.Random(rng.getrandbits(64))
+        shape = shape or r.choice(["worst-right", "worst-left", "bubble-right", "bubble-left",
+                                   "shuffle", "shuffle"])
+        if shape == "bubble-right":
+            m, lens = 2, [1, r.randint(lo, hi)]
+        elif shape == "bubble-left":
+            m, lens = 2, [r.randint(lo, hi), 1]
+        else:
+            m = r.randint(2, 4)
+            lens = [r.randint(max(1, lo // m), max(2, hi // m)) for _ in range(m)]
+        src = r.random() < 0.75
+        mem = sc.branches_member(r, m, lens, shape, maxw=r.choice([1, 2, 3]), src=src,
+                                 snk=(not src) or r.random() < 0.7)
+        sc.self_check(mem)
+        return mem
+
+    def spiral_mem(n, mirrored, unique):
+        mem = sc.spiral_member(n, mirrored, unique)
+        sc.self_check(mem)
+        return mem
+
+    # ---- mid sizes: oracle + class members + the Lean model
+    mids = []
+    for mirrored in (False, True):
+        for n in rng.sample(range(3, 10) if quick else range(3, 13), 2 if quick else 4):
+            mids.append(spiral_mem(n, mirrored, rng.random() < 0.7))
+    for k, shape in enumerate(["worst-right", "worst-left", "bubble-right", "bubble-left", "shuffle",
+                               "shuffle"] * (1 if quick else 3)):
+        mids.append(rand_branches(10, 44 if quick else 80, shape))
+    for mem in mids:
+        famname = "monoidal" if rng.random() < 0.75 else "rigid"
+        for left in (False, True):
+            in_process(mem, left, famname, walks=1 if quick else 2, lean=True)
+
+    walls["mid_s"], t0 = round(time.time() - t0, 1), time.time()
+    # ---- large sizes: more passes than the default recursion limit allows frames
+    hard_mirrored = rng.random() < 0.5
+    if quick:       # (member, preference under which it is far from normal, other class members)
+        larges = [(spiral_mem(24, hard_mirrored, rng.random() < 0.5), hard_mirrored, 0),
+                  (spiral_mem(13, not hard_mirrored, True), not hard_mirrored, 0),
+                  (rand_branches(180, 220, "bubble-right" if hard_mirrored else "bubble-left"),
+                   not hard_mirrored, 0)]
+    else:
+        larges = [(spiral_mem(26, False, True), False, 0), (spiral_mem(26, True, False), True, 0),
+                  (spiral_mem(20, hard_mirrored, False), hard_mirrored, 1),
+                  (rand_branches(1100, 1150, "bubble-right"), False, 0),
+                  (rand_branches(500, 520, "bubble-left"), True, 1),
+                  (rand_branches(100, 130, "worst-right"), False, 1),
+                  (rand_branches(100, 130, "worst-left"), True, 1)]
+    for mem, hard_left, walks in larges:
+        in_process(mem, hard_left, "monoidal", walks=walks, lean=False, walk_steps=400)
+        in_process(mem, not hard_left, "monoidal", walks=0, lean=False)     # already normal: 1 pass
+    walls["large_s"], t0 = round(time.time() - t0, 1), time.time()
+    # ---- LOW STACK: the same call with the recursion limit far below the number of passes.
+    # The limit leaves every implementation whose stack use is bounded by the SIZE of the diagram
+    # (50 frames + 2 per box) untouched; only stack growth per PASS can hit it.
+    cases, metas = [], []
+
+    def low(mem, left, famname, spec=None, member="base"):
+        spec = spec or mem["spec"]
+        limit = 50 + 2 * len(spec[3])
+        p, st = sc.spec_passes(spec, left)
+        cases.append(dict(family=famname, spec=spec, left=left, limit=limit))
+        metas.append((mem, left, famname, spec, limit, p, member))
+
+    for mirrored in (False, True):
+        for n in rng.sample(range(9, 11) if quick else range(9, 16), 1 if quick else 3):
+            mem = spiral_mem(n, mirrored, rng.random() < 0.5)
+            famname = "monoidal" if rng.random() < 0.6 else "rigid"
+            low(mem, mirrored, famname)
+            low(mem, not mirrored, famname)
+            low(mem, mirrored, famname, member="random walk",
+                spec=sc.spec_walk(random.Random(rng.getrandbits(32)), mem["spec"], 60))
+    for shape in ["worst-right", "worst-left", "shuffle"] * (1 if quick else 3):
+        mem = rand_branches(20, 40 if quick else 90, shape)
+        low(mem, False, "monoidal")
+        low(mem, True, "monoidal")
+    answers, stderr = sc.run_low_stack(cases, timeout=120 if quick else 400)
+    for ans, (mem, left, famname, spec, limit, p, member) in zip(answers, metas):
+        case = case_of(mem, left, spec=spec, diagram_family=famname, passes=p, member=member,
+                       recursion_limit=limit, how="subprocess: sys.setrecursionlimit(%d) around "
+                       "Diagram.normal_form(d, left=%s)" % (limit, left))
+        rep.count("scaling:low_stack")
+        rep.count("scaling:low_stack_passes_%s_limit" % ("above_1.5x" if p > 1.5 * limit else "below"))
+        rep.case("lowstack %s %d %s %s %s %s" % (mem["family"], mem["size"], mem["unique"], left,
+                                                famname, member), p > 1.5 * limit)
+        if ans is None:
+            rep.fail("low_stack_no_answer", case, "the worker produced no answer: " + stderr)
+        elif ans["status"] == "err" and ans["cls"] == "notimpl":
+            rep.fail("connected_not_normalised", case, "NotImplementedError on a connected diagram")
+        elif ans["status"] == "err":
+            rep.fail("normal_form_raises_under_low_recursion_limit:" + ans["cls"], case,
+                     "normal_form needs %d passes and returns under the default recursion limit; "
+                     "with the limit at %d it raised %s" % (p, limit, ans["msg"]))
+        else:
+            want = ser_diagram(fams[famname].run(mem["nf"][left]))
+            if ans["nf"] != want:
+                rep.fail("scaling:not_the_closed_form_normal_form", case,
+                         "normal form under a low recursion limit differs from the closed form")
+    walls["low_stack_s"] = round(time.time() - t0, 1)
+    rep.extra["scaling"] = dict(
+        wall=walls, max_passes=max(passes_seen), members=len(passes_seen), low_stack_cases=len(cases),
+        note="closed-form normal forms verified independently (well typed, same wiring, no redex) "
+             "by c06_scale.self_check; pass counts from an integer-list sweep (statistics only)")
+
+
 def run(tier, seed, replay=None):
     from discopy import monoidal
     rep = Report(PROP, tier, seed)
@@ -153,9 +380,22 @@ def run(tier, seed, replay=None):
                 "consumes an existing wire, and unconstrained ones); both left settings; the code's "
                 "normalize() trace (capped at %d steps) is checked step by step against the model's "
                 "step relation; non-trivial = trace of >= 1 step; thorough adds exhaustive "
-                "interchanger classes" % CAP)
+                "interchanger classes; SCALING stream: worst-case families (spirals of "
+                "test_monoidal.build_spiral and their mirror images, parallel branches in worst-case / "
+                "bubble / shuffled order, with boxes that widen and narrow their branch) at growing "
+                "sizes, up to > 1100 passes in quick, compared with their closed-form normal forms; "
+                "non-trivial there = more than one pass (low-stack part: passes > 1.5 x the lowered "
+                "recursion limit)" % CAP)
     rep.partial = ["termination for connected diagrams (C06_termination) and canonicity "
-                   "(C06_canonicity) are NOT proved; supported by the class exploration below"]
+                   "(C06_canonicity) are NOT proved; supported by the class exploration below",
+                   "the interpreter's stack (recursion limit) is outside the Lean model: the large and "
+                   "low-stack parts of the SCALING stream are oracle-only (closed-form normal forms, "
+                   "checked independently to be well typed, in the class and redex-free); the model is "
+                   "compared on the mid-size members only (value and full trace)"]
+    rep.assumptions = ["SCALING low-stack part: an implementation may use stack proportional to the "
+                       "SIZE of the diagram (limit = 50 frames + 2 per box) but not to the number of "
+                       "passes; the closed forms are THE normal forms by uniqueness of the redex-free "
+                       "member of a connected class (arXiv:1804.07832)"]
     rep.lean = lean_obligations(PROP, thorough=(tier == "thorough"))
     n_diagrams = 150 if tier == "quick" else 4000
     n_classes = 25 if tier == "quick" else 1500
@@ -338,6 +578,8 @@ def run(tier, seed, replay=None):
                     rep.fail("not_canonical", dict(spiral=n, left=left),
                              "%d distinct normal forms in the class of spiral(%d)" % (len(nfs), n))
         rep.extra["spiral_members_normalised"] = spirals
+        # ---- SCALING: worst-case families at growing sizes, closed forms, low recursion limit
+        scaling_stream(rep, random.Random(rng.getrandbits(64)), drv, tier, seed)
         # ---- exhaustive small scope: ALL diagrams over the 8-box signature up to 3 (quick) / 4
         # (thorough) boxes: traces accepted by the model, normal forms compared, and the space
         # partitioned into interchanger classes (closure under legal exchanges) to check
@@ -368,11 +610,13 @@ def run(tier, seed, replay=None):
             for left in (False, True):
                 case = dict(expr=repr(e), left=left, stream="small-scope")
                 try:
-                    steps = list(itertools.islice(monoidal.Diagram.normalize(d, left=left), CAP))
+                    # only traces of <= 40 steps are used below: reading 41 steps decides that (a
+                    # non-terminating diagram of this scope cycles with a period of a few steps)
+                    steps = list(itertools.islice(monoidal.Diagram.normalize(d, left=left), 41))
                 except Exception as exc:
                     rep.fail("normalize_raises:" + err_class(exc), case, repr(exc)[:200])
                     continue
-                if len(steps) < CAP and len(steps) <= 40:
+                if len(steps) <= 40:
                     line = "rtrace %d %s %s" % (
                         1 if left else 0, tok_expr(e),
                         " ".join([str(len(steps))] + [tok_expr(spec_diagram(x)) for x in steps]))
